@@ -2,24 +2,26 @@
    Only statements, closed by [exact lemma], with Print Assumptions beneath. *)
 From Coq Require Import String List NArith ZArith Bool Permutation.
 From J5V.lib Require Import Outcome.
-From J5V.model Require Import ReflectDesc ReflectSchema Reflect Export.
+From J5V.model Require Import ReflectDesc ReflectSchema Reflect ExportForm Export ExportApi.
 From J5V.gen Require ReflectGen.
-From J5V.proofs Require Import ReflectProofs ExportProofs ReflectInvProofs.
+From J5V.proofs Require Import ReflectProofs ExportProofs ReflectInvProofs ExportApiProofs.
 Import ListNotations.
 
 Definition entries_of (st : sset) : list (ref * root) :=
   flat_map (fun ke => match snd ke with Linked r => [(fst ke, r)] | Placeholder => [] end) st.
 
-(* The property at full strength: for EVERY descriptor set and selection of files, if reflection
-   succeeds with the set S then exporting S, importing the export and exporting again gives exactly
-   the first export, with every reference resolved. *)
+(* The property at full strength: for EVERY descriptor set, list of packages the image names and order
+   in which the selected files are visited, if structure.APIFromImage succeeds with the API [api]
+   (packages and sub-packages holding terms of the source form) then PackageSetFromSourceAPI on it
+   succeeds, every schema of every package / sub-package is found again under the name it is filed
+   under and exports to exactly the same form, nothing else is in the rebuilt set and every reference
+   is resolved. *)
 Definition C15_full_statement : Prop :=
-  forall (D : desc) (fs : list filed) (S : sset),
-    reflect D fs = Ok S ->
-    exists X, export_set S = Ok X /\
-    exists S', import_api X = ROk S' /\
-      (forall k x, In (k, x) X -> exists r', lookup S' k = Some (Linked r') /\ export_root r' = x) /\
-      (forall k, ~ In k (map fst X) -> lookup S' k = None) /\
+  forall (D : desc) (W : list str) (fs : list filed) (api : xapi),
+    api_from_image D W fs = Ok api ->
+    exists S', import_packages api = ROk S' /\
+      (forall k x, In (k, x) (api_entries api) -> exists r', lookup S' k = Some (Linked r') /\ export_root r' = x) /\
+      (forall k, ~ In k (map fst (api_entries api)) -> lookup S' k = None) /\
       refs_resolved S' = true.
 
 (* ---- field by field: importing an exported field yields a field that exports to the same form;
@@ -36,10 +38,27 @@ Theorem C15_root_inverse : forall r, root_importable r = true ->
 Proof. exact import_export_root. Qed.
 Print Assumptions C15_root_inverse.
 
-(* the export loses nothing but the proto Kind / well-known type name of scalars *)
-Theorem C15_export_is_erasure : forall r, export_root r = erase_root r.
-Proof. exact export_root_erase. Qed.
+(* the export loses nothing but the proto Kind / well-known type name of scalars: it is the plain
+   embedding [form_of_root] of the reader's objects into the source form (ExportForm.v), which looks
+   nothing up in the copy tables *)
+Theorem C15_export_is_erasure : forall r, export_root r = form_of_root r.
+Proof. exact export_root_form. Qed.
 Print Assumptions C15_export_is_erasure.
+
+(* where nothing is lost the import gives back the very same object: enums *)
+Theorem C15_enum_exact : forall n d p o i,
+  import_root (export_root (REnum n d p o i)) = ROk (REnum n d p o i).
+Proof. exact import_export_enum. Qed.
+Print Assumptions C15_enum_exact.
+
+(* the source form can say more than the export ever does: an inline (or unset) schema of an
+   enum / object / oneof field. The import cannot link it (the field gets AsRef() with To == nil and
+   assertRefsLink rejects it), so it is outside what can be re-imported; the export never produces it *)
+Theorem C15_inline_not_importable : forall rules lr ext,
+  (exists c, import_field (XEnum XInline rules lr ext) = RErr c) /\
+  (exists c, import_field (XEnum XUnset rules lr ext) = RErr c).
+Proof. exact import_inline_rejected. Qed.
+Print Assumptions C15_inline_not_importable.
 
 (* ---- lifted over the reference environment, for any set with distinct names, formats the import
    knows and no dangling reference (C15_reflected_roundtrip derives these three facts for reflected
@@ -57,9 +76,8 @@ Print Assumptions C15_roundtrip_partial.
    guarantees it) and the "_"-joined names of messages / enums / real oneofs pairwise distinct (a linked
    set does NOT guarantee it: the known name-collision finding). Nothing is assumed about property or
    JSON names. Every successful reflection then exports, re-imports and re-exports to exactly the same
-   form, every reference resolved. [export_set] models addSchemas only: the package bookkeeping of
-   APIFromImage (splitPackageParts errors on unversioned / deep package names) is outside the model
-   (correspondence only). *)
+   form, every reference resolved. This is the statement over the flat list of exported schemas
+   ([export_set]); C15_api_roundtrip below is the same through the package structure of the API. *)
 Theorem C15_reflected_roundtrip : forall D fs S,
   wf_keys D -> reflect D fs = Ok S ->
   exists X, export_set S = Ok X /\
@@ -70,23 +88,56 @@ Theorem C15_reflected_roundtrip : forall D fs S,
 Proof. exact reflect_export_import_roundtrip. Qed.
 Print Assumptions C15_reflected_roundtrip.
 
+(* ---- the package bookkeeping of APIFromImage (getSchemaSet / getPackage / getSubPackage /
+   splitPackageParts) and the names PackageSetFromSourceAPI rebuilds ("%s.%s"): splitting a package
+   name and joining it again is the identity *)
+Theorem C15_split_then_join_is_identity : forall pkg id,
+  split_package pkg = ROk id -> bucket_name id = pkg.
+Proof. exact split_package_join. Qed.
+Print Assumptions C15_split_then_join_is_identity.
+
+(* filing exported schemas with distinct keys into packages / sub-packages and reading the API back
+   yields exactly those (key, schema) pairs, each once *)
+Theorem C15_routing_keeps_every_entry : forall W X api,
+  route_all (api_init W) X = ROk api -> NoDup (map fst X) -> Permutation (api_entries api) X.
+Proof. exact route_all_entries. Qed.
+Print Assumptions C15_routing_keeps_every_entry.
+
+(* ---- the full statement under the hypothesis wf_keys *)
+Theorem C15_api_roundtrip : forall D W fs api,
+  wf_keys D -> api_from_image D W fs = Ok api ->
+  exists S', import_packages api = ROk S' /\
+    (forall k x, In (k, x) (api_entries api) -> exists r', lookup S' k = Some (Linked r') /\ export_root r' = x) /\
+    (forall k, ~ In k (map fst (api_entries api)) -> lookup S' k = None) /\
+    refs_resolved S' = true.
+Proof. exact api_roundtrip. Qed.
+Print Assumptions C15_api_roundtrip.
+
+(* and APIFromImage does succeed on every successful reflection whose package names split *)
+Theorem C15_api_from_image_ok : forall D W fs S,
+  wf_keys D -> reflect D fs = Ok S -> packages_split S -> exists api, api_from_image D W fs = Ok api.
+Proof. exact api_from_image_ok. Qed.
+Print Assumptions C15_api_from_image_ok.
+
 (* ---- the generated copy tables carry, for every member of every composite literal of the export and
    import functions, the source text of its value; each is the member the model copies (Export.v
-   expected_export / expected_import), every copied member is covered, the Kind set per scalar site and
+   expected_export / expected_import), every member an export literal sets is a copied member or a
+   nested literal (export_table_complete: a new exported field breaks it), every copied member is covered, the Kind set per scalar site and
    the intKinds / floatKinds maps are the model's *)
 Theorem C15_copy_lines_read_the_member_the_model_copies :
+  export_table_complete ReflectGen.export_rhs = true /\
   rhs_table_ok (fun _ => expected_export) ReflectGen.export_rhs = true /\
   rhs_table_ok expected_import ReflectGen.import_rhs = true /\
   map (fun fmt => (int_format_name fmt ++ "=>" ++ match int_kind fmt with Some k => kind_go_name k | None => "" end)%string)
       [1%N; 2%N; 3%N; 4%N] = ReflectGen.intKinds /\
   map (fun fmt => (float_format_name fmt ++ "=>" ++ match float_kind fmt with Some k => kind_go_name k | None => "" end)%string)
       [1%N; 2%N] = ReflectGen.floatKinds.
-Proof. exact (conj export_rhs_ok (conj import_rhs_ok (conj (proj1 int_kinds_agree) (proj1 float_kinds_agree)))). Qed.
+Proof. exact (conj export_rhs_complete (conj export_rhs_ok (conj import_rhs_ok (conj (proj1 int_kinds_agree) (proj1 float_kinds_agree))))). Qed.
 Print Assumptions C15_copy_lines_read_the_member_the_model_copies.
 
 (* buildSchemas ranges over Go maps: the result does not depend on the order *)
 Theorem C15_order_independent : forall e1 e2,
-  Permutation e1 e2 -> NoDup (map fst e1) -> all_importable e1 -> closed e1 ->
+  Permutation e1 e2 -> NoDup (map fst e1) -> xall_importable e1 -> xclosed e1 ->
   exists st1 st2, import_api e1 = ROk st1 /\ import_api e2 = ROk st2 /\ forall k, lookup st1 k = lookup st2 k.
 Proof. exact import_api_order_independent. Qed.
 Print Assumptions C15_order_independent.
